@@ -43,7 +43,15 @@ impl Node<SchemaDefinition> {
             mutation,
             subscription,
         } = &**self;
-        let extensions = self.extensions();
+        // Root operations are not an ordered list: only directives constrain the order.
+        let mut extensions = ordered_extensions(&[origins(&self.directives)]);
+        for (_, op) in self.iter_root_operations() {
+            if let Some(ext) = op.origin.extension_id() {
+                if !extensions.contains(&ext) {
+                    extensions.push(ext);
+                }
+            }
+        }
         let root_ops = |ext: Option<&ExtensionId>| -> Vec<Node<(OperationType, Name)>> {
             self.iter_root_operations()
                 .filter(|(_, op)| op.origin.extension_id() == ext)
@@ -139,8 +147,9 @@ impl ScalarType {
             name: self.name.clone(),
             directives: ast::DirectiveList(components(&self.directives, None)),
         };
+        let extensions = ordered_extensions(&[origins(&self.directives)]);
         std::iter::once(Node::new_opt_location(def, location).into()).chain(
-            self.extensions().into_iter().map(move |ext| {
+            extensions.into_iter().map(move |ext| {
                 ast::Definition::ScalarTypeExtension(ext.same_location(ast::ScalarTypeExtension {
                     name: self.name.clone(),
                     directives: ast::DirectiveList(components(&self.directives, Some(ext))),
@@ -165,8 +174,13 @@ impl ObjectType {
             directives: ast::DirectiveList(components(&self.directives, None)),
             fields: components(self.fields.values(), None),
         };
+        let extensions = ordered_extensions(&[
+            origins(&self.directives),
+            name_origins(&self.implements_interfaces),
+            origins(self.fields.values()),
+        ]);
         std::iter::once(Node::new_opt_location(def, location).into()).chain(
-            self.extensions().into_iter().map(move |ext| {
+            extensions.into_iter().map(move |ext| {
                 ast::Definition::ObjectTypeExtension(ext.same_location(ast::ObjectTypeExtension {
                     name: self.name.clone(),
                     implements_interfaces: names(&self.implements_interfaces, Some(ext)),
@@ -193,8 +207,13 @@ impl InterfaceType {
             directives: ast::DirectiveList(components(&self.directives, None)),
             fields: components(self.fields.values(), None),
         };
+        let extensions = ordered_extensions(&[
+            origins(&self.directives),
+            name_origins(&self.implements_interfaces),
+            origins(self.fields.values()),
+        ]);
         std::iter::once(Node::new_opt_location(def, location).into()).chain(
-            self.extensions().into_iter().map(move |ext| {
+            extensions.into_iter().map(move |ext| {
                 ast::Definition::InterfaceTypeExtension(ext.same_location(
                     ast::InterfaceTypeExtension {
                         name: self.name.clone(),
@@ -222,8 +241,10 @@ impl UnionType {
             directives: ast::DirectiveList(components(&self.directives, None)),
             members: names(&self.members, None),
         };
+        let extensions =
+            ordered_extensions(&[origins(&self.directives), name_origins(&self.members)]);
         std::iter::once(Node::new_opt_location(def, location).into()).chain(
-            self.extensions().into_iter().map(move |ext| {
+            extensions.into_iter().map(move |ext| {
                 ast::Definition::UnionTypeExtension(ext.same_location(ast::UnionTypeExtension {
                     name: self.name.clone(),
                     directives: ast::DirectiveList(components(&self.directives, Some(ext))),
@@ -248,8 +269,10 @@ impl EnumType {
             directives: ast::DirectiveList(components(&self.directives, None)),
             values: components(self.values.values(), None),
         };
+        let extensions =
+            ordered_extensions(&[origins(&self.directives), origins(self.values.values())]);
         std::iter::once(Node::new_opt_location(def, location).into()).chain(
-            self.extensions().into_iter().map(move |ext| {
+            extensions.into_iter().map(move |ext| {
                 ast::Definition::EnumTypeExtension(ext.same_location(ast::EnumTypeExtension {
                     name: self.name.clone(),
                     directives: ast::DirectiveList(components(&self.directives, Some(ext))),
@@ -274,8 +297,10 @@ impl InputObjectType {
             directives: ast::DirectiveList(components(&self.directives, None)),
             fields: components(self.fields.values(), None),
         };
+        let extensions =
+            ordered_extensions(&[origins(&self.directives), origins(self.fields.values())]);
         std::iter::once(Node::new_opt_location(def, location).into()).chain(
-            self.extensions().into_iter().map(move |ext| {
+            extensions.into_iter().map(move |ext| {
                 ast::Definition::InputObjectTypeExtension(ext.same_location(
                     ast::InputObjectTypeExtension {
                         name: self.name.clone(),
@@ -292,6 +317,54 @@ impl InputObjectType {
             def.serialize_impl(state)
         })
     }
+}
+
+/// The extensions that contribute to the given component lists, ordered so that parsing the
+/// serialized definition and extensions gives every list back in its current order.
+///
+/// The order of first appearance is not enough: an extension that comes first in the source may
+/// only contribute to a list that is looked at later (`extend type T { a: Int }` followed by
+/// `extend type T @d { b: Int }`: `@d` is seen before `a`).
+fn ordered_extensions<'a>(lists: &[Vec<&'a ComponentOrigin>]) -> Vec<&'a ExtensionId> {
+    let mut pending: IndexSet<&ExtensionId> = lists
+        .iter()
+        .flatten()
+        .filter_map(|origin| origin.extension_id())
+        .collect();
+    let mut ordered = Vec::with_capacity(pending.len());
+    while !pending.is_empty() {
+        // An extension can come next if no other pending extension precedes it in any list.
+        let next = pending
+            .iter()
+            .copied()
+            .find(|&candidate| {
+                lists.iter().all(|list| {
+                    let first_pending = list
+                        .iter()
+                        .filter_map(|origin| origin.extension_id())
+                        .find(|id| pending.contains(id));
+                    first_pending == Some(candidate)
+                        || !list
+                            .iter()
+                            .any(|origin| origin.extension_id() == Some(candidate))
+                })
+            })
+            // Lists that disagree with each other (hand-built schema): first appearance
+            .unwrap_or(pending[0]);
+        pending.shift_remove(next);
+        ordered.push(next);
+    }
+    ordered
+}
+
+fn origins<'a, T: 'a>(
+    components: impl IntoIterator<Item = &'a Component<T>>,
+) -> Vec<&'a ComponentOrigin> {
+    components.into_iter().map(|c| &c.origin).collect()
+}
+
+fn name_origins(names: &IndexSet<ComponentName>) -> Vec<&ComponentOrigin> {
+    names.iter().map(|c| &c.origin).collect()
 }
 
 fn components<'a, T: 'a>(
